@@ -9,6 +9,7 @@ Coq the dumped heap must equal M's heap after the same call from the same state,
 (returned / which exception) must equal M's, and S (wf_b, atomicity of rejected single-element calls)
 is evaluated on the dumped heap.  The validate functions of style_properties.py are compared with
 M's `validate` on every (property, sample value) pair."""
+import json, os
 import os, re, sys, json, random
 from fractions import Fraction
 import common as C
@@ -403,6 +404,36 @@ def safe_validate(P, v):
         return "raise"
 
 
+class Hang(Exception):
+    pass
+
+
+def _on_alarm(signum, frame):
+    raise Hang()
+
+
+def guarded(f, *a):
+    """run one model call / dump under a 10 s watchdog: a call on the real objects that does not return (e.g. a cyclic
+    sibling chain being iterated) is reported as a failing input instead of hanging the check"""
+    import signal
+    signal.signal(signal.SIGALRM, _on_alarm)
+    old = signal.setitimer(signal.ITIMER_REAL, 10)
+    try:
+        return f(*a)
+    finally:
+        signal.setitimer(signal.ITIMER_REAL, max(old[0] - 10, 1) if old[0] else 0)
+
+
+def guarded_long(f, *a):
+    import signal
+    signal.signal(signal.SIGALRM, _on_alarm)
+    signal.setitimer(signal.ITIMER_REAL, 60)
+    try:
+        return f(*a)
+    finally:
+        signal.setitimer(signal.ITIMER_REAL, 0)
+
+
 def gen_history(seed, PT, pool):
     """run one random history on fresh objects; returns (init, steps, calls-as-json, flags)"""
     rng = random.Random(seed)
@@ -425,8 +456,12 @@ def gen_history(seed, PT, pool):
             if not approx_trigger(U, c): break
             if wild and rng.random() < 0.3: break
         was_trigger = approx_trigger(U, c)
-        oc = execute(U, c, PT)
-        n2, d2 = U.dump()
+        try:
+            oc = guarded(execute, U, c, PT)
+            n2, d2 = guarded(U.dump)
+        except Hang:
+            calls.append([x if isinstance(x, (int, str, list, type(None), bool)) else repr(x) for x in c])
+            return U.init, steps, calls, dict(lengths_ok=lengths_ok, wild=wild, fired=fired, kinds=kinds_used, docsel=docsel, shape=shape, hang=True)
         dn = [(i, n2[i]) for i in range(len(n2)) if n2[i] != prev_n[i]]
         dd = [(i, d2[i]) for i in range(len(d2)) if d2[i] != prev_d[i]]
         steps.append((c, oc, dn, dd)); prev_n, prev_d = n2, d2
@@ -466,9 +501,15 @@ def worker(args):
     PT = props_table(); pool = value_pool()
     lits = []; meta = []
     for s in seeds:
-        init, steps, calls, fl = gen_history(s, PT, pool)
+        try:
+            init, steps, calls, fl = guarded_long(gen_history, s, PT, pool)
+        except Hang:
+            with open(path + ".hang", "a") as hf:
+                hf.write(json.dumps(dict(seed=s, hang=True, docsel=None,
+                                         calls=[["history generated from seed", s, "does not terminate (a traversal of the object graph loops)"]])) + "\n")
+            continue
         lits.append(hist_lit(init, steps))
-        meta.append(dict(seed=s, nsteps=len(steps), lengths_ok=fl["lengths_ok"], wild=fl["wild"], fired=fl["fired"],
+        meta.append(dict(seed=s, hang=fl.get("hang", False), nsteps=len(steps), lengths_ok=fl["lengths_ok"], wild=fl["wild"], fired=fl["fired"],
                          kinds=sorted(f"{a}{'!' if r else ''}" for a, r in fl["kinds"]), calls=calls, docsel=fl["docsel"], shape=fl["shape"],
                          outcomes=[st[1] for st in steps]))
     txt = (HEADER + "Definition cases : list hist := [\n" + ";\n".join(lits) + "].\n"
@@ -517,8 +558,11 @@ def run_sequence(seq):
     prev_n, prev_d = U.dump(); steps = []; ok = True
     for ci in seq:
         c = X_CALLS[ci]
-        oc = execute(U, c, None)
-        n2, d2 = U.dump()
+        try:
+            oc = guarded(execute, U, c, None)
+            n2, d2 = guarded(U.dump)
+        except Hang:
+            return U.init, steps, "hang"
         dn = [(i, n2[i]) for i in range(len(n2)) if n2[i] != prev_n[i]]
         dd = [(i, d2[i]) for i in range(len(d2)) if d2[i] != prev_d[i]]
         steps.append((c, oc, dn, dd)); prev_n, prev_d = n2, d2
@@ -533,7 +577,8 @@ def worker_exh(args):
     for seq in seqs:
         init, steps, ok = run_sequence(seq)
         lits.append(hist_lit(init, steps))
-        meta.append(dict(seed=None, seq=seq, nsteps=len(steps), lengths_ok=ok, wild=True, fired=False, kinds=[],
+        hang = (ok == "hang"); ok = (ok is True)
+        meta.append(dict(seed=None, hang=hang, seq=seq, nsteps=len(steps), lengths_ok=ok, wild=True, fired=False, kinds=[],
                          calls=[list(X_CALLS[i]) for i in seq], docsel=X_DOCSEL, shape=dict(depth=0, ruby=0, regrefs=0, styled=0),
                          outcomes=[st[1] for st in steps]))
     txt = (HEADER + "Definition cases : list hist := [\n" + ";\n".join(lits) + "].\n"
@@ -632,7 +677,16 @@ def main():
         fc = pairs[3][1]
         if len(fc) == 8: fired = [a + c for a, c in zip(fired, fc)]
         total_steps += pairs[4][0]
-    len_bad = [key for key, mt in metas.items() if not mt["lengths_ok"]]
+    len_bad = [key for key, mt in metas.items() if not mt["lengths_ok"] and not mt.get("hang")]
+    hangs = [mt for k_, path_, meta_, _ in done for mt in meta_ if mt.get("hang")]
+    import glob as _glob
+    for hf in _glob.glob(f"{C.GEN}/Cases_C15_*.hang"):
+        hangs += [json.loads(l) for l in open(hf)]
+        os.unlink(hf)
+    if hangs:
+        run.violation(f"a model API call (or reading the children back) does not return: history {hangs[0]['calls'][-6:]} "
+                      f"({len(hangs)} histories hang)", dict(kind="S-on-code", clause="links/child lists agree (a traversal never ends)",
+                                                             calls=hangs[0]["calls"], docsel=hangs[0]["docsel"], count=len(hangs)))
     run.log(f"{len(metas)} histories / {total_steps} calls evaluated in Coq: model/code mismatches {len(m_bad)}, S failures outside "
             f"findings {len(s_bad)}, S failures incl. findings {len(strict_bad)} (by finding {fired}), len/list disagreements "
             f"{len(len_bad)}, validate mismatches {len(v_model_bad)}, broken case files {len(broken)}")
